@@ -126,3 +126,78 @@ def c17_mean_grp(xx, groups, nodata, dtype="int16"):
         if abs(out[i] - exp) > 1e-6 * max(1.0, abs(exp)):
             bad.append((i, exp, out[i]))
     return {"violates": bool(bad), "out": out, "bad": bad}
+
+
+# ------------------------------------------------------------------ C01
+def c01_ws2d(y, w, lam):
+    from hdc.algo.ops.ws2d import ws2d
+    y = np.array(unjson(y), dtype="float64")
+    w = np.array(unjson(w), dtype="float64")
+    n = len(y)
+    try:
+        z = np.asarray(ws2d(y.copy(), float(lam), w.copy()), dtype="float64")
+    except Exception as e:  # noqa
+        return {"violates": True, "why": f"raised {type(e).__name__}: {e}"}
+    if z.shape != (n,):
+        return {"violates": True, "why": f"shape {z.shape}"}
+    D = np.diff(np.eye(n), 2, axis=0)
+    A = np.diag(w) + float(lam) * D.T @ D
+    ref = np.linalg.solve(A, w * y)
+    scale = max(1.0, float(np.max(np.abs(ref))))
+    err = float(np.max(np.abs(z - ref))) / scale if np.all(np.isfinite(z)) else float("inf")
+    cond = float(np.linalg.cond(A))
+    # the counterexample is an exact-arithmetic one: demand a clear float64 discrepancy, scaled by conditioning
+    tol = max(1e-6, 1e-13 * cond)
+    return {"violates": bool(err > tol), "err": err, "tol": tol, "z": z, "ref": ref}
+
+
+# ------------------------------------------------------------------ C18
+def _longest_run(data):
+    best = cur = 0
+    for v in data:
+        cur = cur + 1 if v == 1 else 0
+        best = max(best, cur)
+    return best if best >= 2 else 0
+
+
+def c18_lroo(data, accessor=False):
+    from hdc.algo.ops import lroo
+    x = np.array(data, dtype="uint8")
+    if accessor:
+        import xarray as xr
+        import hdc.algo  # noqa
+        da = xr.DataArray(x.reshape(-1, 1, 1), dims=("time", "y", "x"))
+        got = int(da.hdc.algo.lroo().values[0, 0])
+    else:
+        got = int(lroo(x))
+    exp = _longest_run(data)
+    return {"violates": got != exp, "got": got, "expected": exp, "n": len(data)}
+
+
+def c18_lroo_dtype():
+    import xarray as xr
+    import hdc.algo  # noqa
+    from hdc.algo.ops import lroo
+    x = np.array([1, 1, 0], dtype="uint8")
+    k = lroo(x)
+    da = xr.DataArray(x.reshape(-1, 1, 1), dims=("time", "y", "x")).chunk({"time": -1})
+    lazy = da.hdc.algo.lroo()
+    return {"violates": str(lazy.dtype) != str(np.asarray(k).dtype), "lazy": str(lazy.dtype), "kernel": str(np.asarray(k).dtype)}
+
+
+def c18_croo(values, times):
+    import xarray as xr
+    import pandas as pd
+    import hdc.algo  # noqa
+    n = len(values)
+    t = pd.to_datetime("2000-01-01") + pd.to_timedelta(np.array(times, dtype="int64"), unit="D")
+    da = xr.DataArray(np.array(values, dtype="int64").reshape(n, 1, 1), dims=("time", "y", "x"), coords={"time": t})
+    got = int(da.hdc.algo.croo().values[0, 0])
+    order = np.argsort(times)[::-1]
+    exp = 0
+    for i in order:
+        if values[i] == 1:
+            exp += 1
+        else:
+            break
+    return {"violates": got != exp, "croo": got, "expected": exp}
